@@ -209,15 +209,25 @@ func (f *Fact) Act(id int64) { f.probe("act", id) }
 
 // ---- cloning and canonical dump ----
 
-func cloneSub(s *Sub, depth int) *Sub {
-	if s == nil || depth > 8 {
+// cloneSubM copies s once per memo: records reachable along several paths stay ONE record in the copy.
+func cloneSubM(s *Sub, memo map[*Sub]*Sub) *Sub {
+	if s == nil {
 		return nil
 	}
-	return &Sub{V: s.V, S: s.S, Q: cloneSub(s.Q, depth+1)}
+	if c, ok := memo[s]; ok {
+		return c
+	}
+	c := &Sub{V: s.V, S: s.S}
+	memo[s] = c
+	c.Q = cloneSubM(s.Q, memo)
+	return c
 }
 
-// Clone deep-copies the engine-visible part of f (fresh Hidden).
-func (f *Fact) Clone() *Fact {
+// Clone deep-copies the engine-visible part of f (fresh Hidden); aliasing among its records is preserved.
+func (f *Fact) Clone() *Fact { return f.CloneShared(map[*Sub]*Sub{}) }
+
+// CloneShared is Clone with a memo shared by several facts (a record held by two facts stays shared).
+func (f *Fact) CloneShared(memo map[*Sub]*Sub) *Fact {
 	if f == nil {
 		return nil
 	}
@@ -227,7 +237,7 @@ func (f *Fact) Clone() *Fact {
 		v := *f.PI
 		c.PI = &v
 	}
-	c.P = cloneSub(f.P, 0)
+	c.P = cloneSubM(f.P, memo)
 	if f.MSV != nil {
 		c.MSV = map[string]Sub{}
 		for k, v := range f.MSV {
@@ -284,7 +294,7 @@ func (f *Fact) Clone() *Fact {
 	if f.PArr != nil {
 		c.PArr = make([]*Sub, len(f.PArr))
 		for i, p := range f.PArr {
-			c.PArr[i] = cloneSub(p, 0)
+			c.PArr[i] = cloneSubM(p, memo)
 		}
 	}
 	if f.M != nil {
@@ -302,7 +312,7 @@ func (f *Fact) Clone() *Fact {
 	if f.MP != nil {
 		c.MP = map[string]*Sub{}
 		for k, v := range f.MP {
-			c.MP[k] = cloneSub(v, 0)
+			c.MP[k] = cloneSubM(v, memo)
 		}
 	}
 	return &c
